@@ -150,6 +150,52 @@ def check_residual(chk, prog, f):
               "chosen rows may be removed without having been inserted", inst.loc)
 
 
+def check_every_rule_offered(chk, prog, f):
+    """Step 3 of a scheduled iteration: the scheduler is consulted for EVERY rule of the ruleset, every iteration — whether or not its
+    query ran and whether or not it has a backlog: filter_matches is the only place `should_seek` is recomputed."""
+    R = chk.rule("R-EVERY-RULE-OFFERED", "in the scheduled step, the loop that lets the scheduler decide is a plain loop over the collected rules in which every iteration calls "
+                 "Scheduler::filter_matches, stores its result into rule_info.should_seek, calls Matches::instantiate and writes the residual back — no iteration skips "
+                 "(`continue`) past any of them; the action-rule list is built from every collected rule (map, not filter)")
+    g = None
+    for h in prog.region(f):
+        if any(c.d.endswith("Scheduler::filter_matches") for c in h.calls):
+            g = h
+    if g is None:
+        chk.missing(R, "closure of the scheduled step that calls Scheduler::filter_matches")
+        return
+    fm = [c for c in g.calls if c.d.endswith("Scheduler::filter_matches")]
+    inst = [c for c in g.calls if c.p.endswith("scheduler::Matches::instantiate")]
+    seek = set()
+    for i, j, s2 in g.assigns():
+        pj = [e for e in s2[1][1] if not isinstance(e, str)]
+        if pj and pj[-1][0] == "f" and pj[-1][2] == "should_seek":
+            if any(a[0] == "call" and a[2] in {c.bb for c in fm} for a in g.origins(s2[2][1] if s2[2][0] == "use" else ["k", "", ""])):
+                seek.add(i)
+    # also: the call's destination IS the field
+    for c in fm:
+        if c.dest[1] and [e for e in c.dest[1] if not isinstance(e, str)][-1:] and [e for e in c.dest[1] if not isinstance(e, str)][-1][2] == "should_seek":
+            seek.add(c.bb)
+    loops = []
+    for c in g.calls:
+        if (c.p.endswith("Iterator>::next") or c.p.endswith("Iterator::next")) and c.target is not None and g.term(c.target)[0] == "switch":
+            some = [tb for v, tb in g.term(c.target)[2] if v == "1"]
+            if some and any(x.bb in ({some[0]} | g.reach(some[0])) for x in fm):
+                loops.append((c, some[0]))
+    ok = len(loops) == 1 and bool(fm) and bool(inst) and bool(seek)
+    why = []
+    if ok:
+        nx, some = loops[0]
+        for need, what in (({c.bb for c in fm}, "Scheduler::filter_matches"), (seek, "the should_seek update"), ({c.bb for c in inst}, "Matches::instantiate")):
+            r = {some} | g.reach_avoiding([some], need) if some not in need else set()
+            if nx.bb in r:
+                ok = False
+                why.append(f"an iteration can reach the next rule without {what}")
+    else:
+        why.append(f"loops={len(loops)} filter_matches={len(fm)} instantiate={len(inst)} should_seek stores={len(seek)}")
+    chk.judge(ok, R, f"{f.name}:decide-loop", "every rule of the ruleset is offered to the scheduler in every iteration",
+              "; ".join(why) + ": a rule whose query did not run and whose backlog is empty is never offered again, so its should_seek flag is never recomputed and the rule starves", g.loc)
+
+
 def check_report(chk, prog, f, body):
     R = chk.rule("R-REPORT", "query_report.updated is forced to false; action_report.can_stop is false when updated, else the scheduler's can_stop()")
     if body is None:
@@ -205,4 +251,5 @@ def run(chk, prog, tier):
     check_query_no_subsumed(chk, prog)
     body = check_decide_then_act(chk, prog, f)
     check_residual(chk, prog, f)
+    check_every_rule_offered(chk, prog, f)
     check_report(chk, prog, f, body)
